@@ -6,6 +6,7 @@ import (
 	"encoding/json"
 	"errors"
 	"fmt"
+	"os"
 	"strings"
 	"time"
 
@@ -856,7 +857,7 @@ func genC02Raw(seed uint64, tier string) Scenario {
 // endpoints keep per connection must not wear out with the volume.
 func genC02Bulk(g *Gen, tier string) Scenario {
 	s := &E2EScenario{Prop: "C02", Scripts: map[int]Script{}}
-	s.Config = sim.Config{Sched: g.IntN(3), StickPct: 99, PipeCap: []int{0, 65536, 1 << 20}[g.IntN(3)], ShortReads: g.IntN(2), MaxSteps: 4000000}
+	s.Config = sim.Config{Sched: g.IntN(3), StickPct: 99, PipeCap: []int{0, 65536, 1 << 20}[g.IntN(3)], MaxSteps: 1000000}
 	s.Service = genService(g, 1, "unix:@bulk")
 	block := g.BigString(60000 + g.IntN(10000))
 	huge := func() string {
@@ -885,7 +886,7 @@ func genC02Bulk(g *Gen, tier string) Scenario {
 
 func genC02(seed uint64, tier string) Scenario {
 	g := NewGen(seed, 0xC02)
-	if g.IntN(1500) == 0 {
+	if g.IntN(1500) == 0 || os.Getenv("VERIF_DEV_FORCE_BULK") != "" {
 		return genC02Bulk(g, tier)
 	}
 	if g.Pct(15) {
